@@ -220,6 +220,16 @@ func (server *Server) setupServe() {
 	}
 
 	// start HTTP/1.1 server
+	if server.HTTP2Server.IdleTimeout == 0 {
+		// like http2.ConfigureServer: idle HTTP/2 connections are closed after
+		// the HTTP server's idle timeout (or read timeout, if that is unset)
+		if server.HTTPServer.IdleTimeout != 0 {
+			server.HTTP2Server.IdleTimeout = server.HTTPServer.IdleTimeout
+		} else {
+			server.HTTP2Server.IdleTimeout = server.HTTPServer.ReadTimeout
+		}
+	}
+
 	if server.http1ConnChannelListener == nil {
 		server.http1ConnChannelListener = hack.NewChannelListener(server.ctx)
 		go server.serveHTTP1()
